@@ -545,7 +545,7 @@ class GNSSSatelliteMessage(MessagePayload):
         return string
 
     def calcsize(self) -> int:
-        return 2 * Timestamp.calcsize() + GNSSSatelliteMessage._SIZE + len(self.svs) * SatelliteInfo.calcsize()
+        return 2 * Timestamp.calcsize() + GNSSSatelliteMessage._STRUCT.size + len(self.svs) * SatelliteInfo.calcsize()
 
     @classmethod
     def to_numpy(cls, messages):
